@@ -29,7 +29,7 @@ ASSUMPTIONS = [
 DECIDING = ['bp.encoding.bundle:Bundle.__bytes__', 'scapy_cbor.packets:CborArray.self_build', 'scapy_cbor.packets:CborArray.do_dissect',
             'bp.encoding.fields:EidField.i2m', 'bp.encoding.fields:EidField.m2i', 'bp.encoding.blocks:AbstractBlock.update_crc',
             'bp.encoding.bundle:Bundle.post_dissect']
-REQUIRED_OBS = ['d1_real_to_oracle', 'd2_real_roundtrip', 'd3_oracle_to_real', 'status_reports', 'fragments', 'typed_blocks', 'crc_recomputed_roundtrips']
+REQUIRED_OBS = ['d1_real_to_oracle', 'd2_real_roundtrip', 'd3_oracle_to_real', 'status_reports', 'fragments', 'typed_blocks', 'crc_recomputed_roundtrips', 'secblocks_built', 'crc_histories_failing']
 
 
 def cases(tier, seed):
@@ -369,12 +369,103 @@ def check_bytes_like(obs):
     return viols
 
 
+def check_secblocks(case, obs):
+    ''' Security blocks (types 11/12) built from field values, as the BPSec application builds them: the block data must be the
+    RFC 9172 CBOR *sequence* an independent encoder writes for those values, and decoding the bundle must give the values back. '''
+    from bp.encoding import Bundle, PrimaryBlock, CanonicalBlock, Timestamp
+    from bp.encoding.bpsec import BlockIntegrityBlock, BlockConfidentialityBlock, TypeValuePair, TargetResultList
+    rng = random.Random(case['seed'] + 77)
+    viols = []
+    for idx in range(24):
+        cls, btype = ((BlockIntegrityBlock, 11), (BlockConfidentialityBlock, 12))[idx % 2]
+        targets = rng.sample([1, 2, 3, 4, 23, 24, 300], rng.randint(1, 3))
+        ctx = rng.choice([1, 3, 24, 99, 65536])
+        src = rng.choice(['dtn://sec/src', 'ipn:5.9', 'dtn:none', 'dtn://a/'])
+        params = [(rng.choice([1, 2, 3, 5, 300]), rng.choice([5, 0, b'', b'\x01\x02', bytes(range(30)), 2 ** 32])) for _ in range(rng.randint(0, 3))]
+        with_params = bool(params) or idx % 3 == 0
+        results = [[(rng.choice([1, 17, 18, 97]), bytes(rng.randrange(256) for _ in range(rng.choice([0, 16, 32, 64]))))
+                    for _ in range(rng.randint(1, 2))] for _ in targets]
+        kwargs = dict(targets=targets, context_id=ctx, context_flags=1 if with_params else 0, source=src,
+                      results=[TargetResultList(results=[TypeValuePair(type_code=tid, value=val) for (tid, val) in res]) for res in results])
+        if with_params:
+            kwargs['parameters'] = [TypeValuePair(type_code=pid, value=val) for (pid, val) in params]
+        want = cw.enc(targets) + cw.enc(ctx) + cw.enc(1 if with_params else 0) + cw.enc(bpv7.eid_to_item(src))
+        if with_params:
+            want += cw.enc([[pid, val] for (pid, val) in params])
+        want += cw.enc([[[tid, val] for (tid, val) in res] for res in results])
+        obs['secblocks_built'] = obs.get('secblocks_built', 0) + 1
+        try:
+            real = Bundle(primary=PrimaryBlock(destination='dtn://d/', source='dtn://s/', report_to='dtn:none',
+                                               create_ts=Timestamp(dtntime=5, seqno=idx), lifetime=5, crc_type=0),
+                          blocks=[CanonicalBlock(type_code=btype, block_num=7, crc_type=idx % 3) / cls(**kwargs),
+                                  CanonicalBlock(type_code=1, block_num=1, btsd=b'payload')])
+            real.fill_fields()
+            real.update_all_crc()
+            enc = bytes(real)
+            dec, problems = bpv7.decode(enc)
+            got = dec['blocks'][0]['data']
+            back = Bundle(enc).blocks[0].payload
+            back_vals = None
+            if isinstance(back, cls):
+                back_vals = (list(back.getfieldval('targets')), back.getfieldval('context_id'), int(back.getfieldval('context_flags')), back.getfieldval('source'),
+                             [(par.getfieldval('type_code'), par.getfieldval('value')) for par in (back.getfieldval('parameters') or [])],
+                             [[(r.getfieldval('type_code'), r.getfieldval('value')) for r in trl.getfieldval('results')] for trl in back.getfieldval('results')])
+        except Exception as err:  # pylint: disable=broad-except
+            viols.append(('secblock', 'type %d block built from fields: %s: %s' % (btype, type(err).__name__, str(err)[:100]), {}))
+            continue
+        if problems:
+            viols.append(('secblock', 'bundle with a type %d block built from fields is not well-formed: %s' % (btype, problems[:2]), dict(encoded=enc.hex())))
+        if got != want:
+            viols.append(('secblock', 'type %d block built from fields (targets %s, context %d): block data is %s..., the RFC 9172 sequence for those values is %s...'
+                          % (btype, targets, ctx, (got or b'').hex()[:40], want.hex()[:40]), dict(encoded=enc.hex())))
+        want_vals = (targets, ctx, 1 if with_params else 0, src, params if with_params else [], results)
+        if back_vals != want_vals:
+            viols.append(('secblock', 'type %d block built from fields decodes to %r, built from %r' % (btype, back_vals, want_vals), dict(encoded=enc.hex())))
+    return viols
+
+
+def check_crc_history(case, obs):
+    ''' Verifying the CRCs of a decoded bundle must not change it: whatever the verdict, re-encoding gives the received octets and
+    the field values stay what was decoded (the agent checks every received bundle before anything else looks at it). '''
+    from bp.encoding import Bundle
+    rng = random.Random(case['seed'] + 99)
+    viols = []
+    for idx in range(40):
+        bundle = gen.rand_bundle(rng, hard_eids=False, allow_admin=False, max_ext=2, payload_len=rng.choice([1, 10, 40]))
+        if not (bundle['primary']['crc_type'] or any(blk['crc_type'] for blk in bundle['blocks'])):
+            bundle['blocks'][-1]['crc_type'] = 1 + idx % 2
+        enc = bytearray(bpv7.encode(bundle))
+        if idx % 4:
+            # damage one octet of the payload data (the CBOR structure stays intact)
+            enc[-2 - (4 if bundle['blocks'][-1]['crc_type'] == 2 else 2 if bundle['blocks'][-1]['crc_type'] == 1 else 0) - 1] ^= 0x10
+        enc = bytes(enc)
+        obs['crc_histories'] = obs.get('crc_histories', 0) + 1
+        try:
+            real = Bundle(enc)
+            before = gen.from_real(real)
+            failed = real.check_all_crc()
+            if failed:
+                obs['crc_histories_failing'] = obs.get('crc_histories_failing', 0) + 1
+            after = gen.from_real(real)
+            again = bytes(real)
+        except Exception as err:  # pylint: disable=broad-except
+            if idx % 4 == 0:
+                viols.append(('crc-history', 'decode / check_all_crc / encode of a valid bundle: %s: %s' % (type(err).__name__, str(err)[:80]), dict(encoded=enc.hex())))
+            continue
+        if before != after:
+            viols.append(('crc-history', 'check_all_crc() changed the decoded field values: %s' % _diff(before, after), dict(encoded=enc.hex())))
+        if again != enc:
+            viols.append(('crc-history', 'after check_all_crc() (blocks failing: %s) the decoded bundle re-encodes differently at offset %d'
+                          % (sorted(failed) if failed else 'none', _first_diff(again, enc)), dict(encoded=enc.hex())))
+    return viols
+
+
 def run_case(case):
     obs = dict(d1_real_to_oracle=0, d2_real_roundtrip=0, d3_oracle_to_real=0, status_reports=0, fragments=0, typed_blocks=0)
     violations = []
     classes = set()
     if case['kind'] == 'times':
-        viols = check_times(case, obs) + check_bytes_like(obs)
+        viols = check_times(case, obs) + check_bytes_like(obs) + check_secblocks(case, obs) + check_crc_history(case, obs)
         violations = [dict(key=None, what='%s: %s' % (kind, what), detail=detail) for (kind, what, detail) in viols[:10]]
         return dict(verdict='violated' if violations else 'held', nontrivial=True, cls={'times|%d' % case['seed']}, obs=obs,
                     violations=violations, sample=dict(kind='times'), evaluations=obs.get('time_conversions', 0))
